@@ -342,4 +342,67 @@ Section Drive.
         cbn [map C09.drive stop_of]. rewrite Efin. reflexivity.
       + exfalso. exact (Hne e eq_refl).
   Qed.
+
+  (* ------------- reading the invariants off the dictionaries ------------- *)
+  Lemma WI_get st a : WI st a -> slot_get (its st) 0 = Some a.
+  Proof.
+    intros [r HR]. rewrite (R_get V dI (its st) (a :: r) 0 ltac:(discriminate) HR).
+    destruct dI; [lia|]. reflexivity.
+  Qed.
+
+  Lemma nth_app_pad acc i : nth i (acc ++ pad) v0 = nth i acc v0.
+  Proof.
+    destruct (Nat.lt_ge_cases i (length acc)) as [Hlt|Hge].
+    - apply app_nth1. exact Hlt.
+    - rewrite app_nth2 by exact Hge. rewrite (nth_overflow acc) by exact Hge.
+      unfold pad. apply nth_repeat.
+  Qed.
+
+  Lemma WT_get st acc i : acc <> [] -> WT st acc ->
+    slot_get (tss st) i = if i <? dT then Some (nth i acc v0) else None.
+  Proof.
+    intros Hne HR. unfold WT in HR.
+    assert (Hne' : acc ++ pad <> []) by (destruct acc; [congruence|discriminate]).
+    rewrite (R_get V dT (tss st) (acc ++ pad) i Hne' HR).
+    destruct (i <? dT) eqn:E; [|reflexivity]. apply Nat.ltb_lt in E.
+    rewrite (nth_error_nth' _ v0).
+    - f_equal. apply nth_app_pad.
+    - rewrite app_length. unfold pad. rewrite repeat_length.
+      destruct acc; [congruence|]. cbn [length]. lia.
+  Qed.
+
+  Lemma accept_nonempty acc e : acc <> [] -> accept acc e <> [].
+  Proof.
+    intros Hne. unfold accept1. destruct (e_res e); try exact Hne.
+    destruct (e_out e); try exact Hne; destruct acc; try congruence; discriminate.
+  Qed.
+
+  Lemma accepts_nonempty tr : forall acc, acc <> [] -> fold_left accept tr acc <> [].
+  Proof.
+    induction tr as [|e tr IH]; intros acc Hne; [exact Hne|].
+    cbn [fold_left]. apply IH. apply accept_nonempty. exact Hne.
+  Qed.
+
+  Lemma trace_ok_app pre : forall acc post,
+      trace_ok acc (pre ++ post) -> trace_ok (fold_left accept pre acc) post.
+  Proof.
+    induction pre as [|e pre IH]; intros acc post H; [exact H|].
+    cbn [app trace_ok fold_left] in *. apply IH. tauto.
+  Qed.
+
+  Lemma last_cons (A : Type) (x : A) l d : last (x :: l) d = last l x.
+  Proof.
+    revert x d. induction l as [|y l IH]; intros x d; [reflexivity|].
+    change (last (x :: y :: l) d) with (last (y :: l) d). rewrite (IH y d), (IH y x).
+    reflexivity.
+  Qed.
+
+  Lemma final_store_WT tr : forall st acc,
+      WT st acc -> trace_ok acc tr -> WT (final_store st tr) (fold_left accept tr acc).
+  Proof.
+    induction tr as [|e tr IH]; intros st acc HT Hok; [exact HT|].
+    unfold final_store. cbn [map fold_left]. rewrite last_cons.
+    cbn [trace_ok] in Hok. destruct Hok as [[_ [_ [HTe _]]] Hok].
+    apply (IH (e_store e) _ HTe Hok).
+  Qed.
 End Drive.
